@@ -964,6 +964,7 @@ func UnmarshalCandidate(raw string) (Candidate, error) { //nolint:cyclop
 			return nil, err
 		}
 
+		candidate.tcpType = tcpType // RFC 6544: every candidate type may carry a tcptype
 		candidate.setExtensions(extensions)
 
 		return candidate, nil
@@ -983,6 +984,7 @@ func UnmarshalCandidate(raw string) (Candidate, error) { //nolint:cyclop
 			return nil, err
 		}
 
+		candidate.tcpType = tcpType // RFC 6544: every candidate type may carry a tcptype
 		candidate.setExtensions(extensions)
 
 		return candidate, nil
@@ -1004,6 +1006,7 @@ func UnmarshalCandidate(raw string) (Candidate, error) { //nolint:cyclop
 			return nil, err
 		}
 
+		candidate.tcpType = tcpType // RFC 6544: every candidate type may carry a tcptype
 		candidate.setExtensions(extensions)
 
 		return candidate, nil
